@@ -47,7 +47,9 @@ def classifiers():
           or any(s in ('g', 'G') for s in m['ast'].split(':')[1].split('/')))),
         ('C02-globstar-div-newline', lambda m: m['name'] is not None and m['impl'] is True and m['ub'] is False and
          m['name'].endswith('\n') and len(m['name']) >= 2 and m['name'][-2] != '/' and
-         any(sg in ('g', 'G') for sg in m['ast'].split(':')[1].split('/')[:-1])),
+         (any(sg in ('g', 'G') for sg in m['ast'].split(':')[1].split('/')[:-1]) or
+          # MATCHBASE puts the same `**/` in front of a pattern without separator
+          (m['cfg']['mb'] and m['ast'].startswith('r:') and '/' not in m['ast'].split(':')[1]))),
         ('C02-dotdir-guard-newline', lambda m: m['name'] is not None and m['impl'] is False and m['lb'] is True and
          m['name'].rstrip('/').split('/')[-1] in ('.\n', '..\n')),
         ('C01-group-dot-guard-repeat', lambda m: m['name'] is not None and m['impl'] is False and m['lb'] is True and
